@@ -43,6 +43,10 @@ def raw_ranking(model_ranking):
     return [make_set(b) for b in model_ranking]
 
 
+def raw_ranking_list(rankings):
+    return [raw_ranking(r) for r in rankings]
+
+
 def mk_ranking(model_ranking):
     return Ranking(raw_ranking(model_ranking))
 
